@@ -1,6 +1,7 @@
 import EaselModel.Alphabet.Model
 import EaselModel.Alphabet.GuessModel
 import EaselModel.Alphabet.Sq2Model
+import EaselModel.Alphabet.SqModel
 /-! # C08 — round 4 additions to the executable model (core Lean only; the driver imports this file)
 
 * the integer-score routines `esl_abc_IAvgScore`, `esl_abc_IExpectScore`, `esl_abc_IAvgScVec`, `esl_abc_IExpectScVec`
@@ -97,6 +98,46 @@ def countResiduesText {α : Type} [ScoreNum α] (a : Alphabet) (seq : List Nat) 
     Option (Option (List α)) :=
   if start < 0 ∨ start + L > (seq.length : Int) then none
   else some (countResTextLoop a seq L.toNat start.toNat f)
+
+/-! ## `esl_sq_Copy`: the sequence part of the four mode combinations -/
+
+/-- what `esl_sq_Copy` leaves in `dst`: `n`, and the cells of `dst->seq` up to its NUL / of `dst->dsq` up to and including its
+    closing sentinel (the cells the code has written; anything beyond is uninitialised) -/
+structure Copied where
+  n : Nat
+  buf : List Nat
+  deriving DecidableEq, Repr
+
+/-- `esl_sq_Reuse(dst)` on the error path: `n = 0`, empty sequence -/
+def reused (dstDigital : Bool) : Copied := { n := 0, buf := if dstDigital then [SENTINEL, SENTINEL] else [] }
+
+/-- `esl_sq_Copy(src, dst)`, sequence part. `src` = `.inl text` (NUL-free bytes) or `.inr (dsq, n)` (whole digital array, length);
+    `a` = alphabet of the digital side(s); `sameType` = `src->abc->type == dst->abc->type` (digital to digital only).
+    `guard` = the `esl_abc_ValidateSeq` call before the text→digital `esl_abc_Digitize`.
+    Result: status (`.error` = exception) and what is left in `dst`; inner `none` = out-of-bounds access. -/
+def sqCopy (guard : Bool) (a : Alphabet) (src : Sum (List Nat) (List Nat × Nat)) (dstDigital sameType : Bool) :
+    Option (Except Status (Status × Copied)) :=
+  match src, dstDigital with
+  | .inl txt, false => some (.ok (.ok, { n := txt.length, buf := txt }))                       -- strcpy
+  | .inl txt, true =>
+    if guard && validateSeq a txt != .ok then some (.ok (.einval, reused true))
+    else
+      let (st, d) := a.digitize txt
+      if st ≠ .ok then some (.ok (st, reused true))
+      else some (.ok (.ok, { n := txt.length, buf := d }))                                         -- dst->n = src->n
+  | .inr (dsq, n), false =>
+    match a.textize dsq n with
+    | none => none
+    | some t => some (.ok (.ok, { n := n, buf := t }))
+  | .inr (dsq, n), true =>
+    if !sameType then some (.error .eincompat)
+    else match Alphabet.dsqcpy dsq n with
+      | none => none
+      | some c => some (.ok (.ok, { n := n, buf := c }))
+
+/-- `esl_sq_Validate`'s length test on the copy: `strlen(seq) == n` / `esl_abc_dsqlen(dsq) == n` -/
+def Copied.consistent (c : Copied) (digital : Bool) : Bool :=
+  if digital then Alphabet.dsqlen c.buf == some c.n else c.buf.length == c.n
 
 end Sq
 
